@@ -554,7 +554,7 @@ def judge(module, cfg, records, shards=None, timeout=1800, group_key=None):
         cur, last = [], object()
         for r in recs:
             g = r[group_key]
-            if g != last and cur:
+            if (g != last or g in (None, "none")) and cur:      # (records outside any group stand alone)
                 groups.append(cur)
                 cur = []
             cur.append(r)
